@@ -371,20 +371,20 @@ func (w *rxWorld) buildFrame(o *RxOp) []byte {
 		emptyName := []byte{0x07, 0x00}
 		digest32 := make([]byte, 32)
 		cases := [][]byte{
-			tlv(0x05, append(append([]byte{}, emptyName...), nonce...)),                                    // Interest with the empty name
-			tlv(0x05, append(append(append([]byte{}, emptyName...), nonce...), 0x24, 0x00)),                  // ... and empty ApplicationParameters
-			tlv(0x05, append(append([]byte{}, emptyName...), 0x24, 0x00)),                                    // ... parameters, no nonce
-			tlv(0x05, append(append(append([]byte{}, emptyName...), nonce...), tlv(0x24, []byte{9, 9})...)),  // ... non-empty parameters
-			tlv(0x06, emptyName),                                                                            // Data with the empty name and nothing else
-			tlv(0x06, append(append([]byte{}, emptyName...), tlv(0x15, []byte{1})...)),                       // Data, empty name, content
-			tlv(0x05, append(tlv(0x07, tlv(0x02, digest32)), nonce...)),                                      // Interest whose only component is a parameters digest
-			tlv(0x05, append(append(tlv(0x07, tlv(0x02, digest32)), nonce...), 0x24, 0x00)),                  // ... with parameters (digest mismatch)
-			tlv(0x05, append(tlv(0x07, tlv(0x08, nil)), nonce...)),                                           // Interest with one zero-length component
-			tlv(0x05, append(tlv(0x07, append(tlv(0x08, []byte{'a'}), tlv(0x01, digest32)...)), nonce...)),    // implicit digest component
-			tlv(0x64, tlv(0x50, tlv(0x05, append(append([]byte{}, emptyName...), nonce...)))),                // the first case inside an LpPacket
-			tlv(0x64, append(tlv(0x62, []byte{0, 0, 1, 2, 3, 4}), tlv(0x50, tlv(0x06, emptyName))...)),       // empty-name Data with a PIT token
-			tlv(0x64, nil),                                                                                  // empty LpPacket
-			tlv(0x64, tlv(0x50, nil)),                                                                       // LpPacket with an empty fragment
+			tlv(0x05, append(append([]byte{}, emptyName...), nonce...)),                                     // Interest with the empty name
+			tlv(0x05, append(append(append([]byte{}, emptyName...), nonce...), 0x24, 0x00)),                 // ... and empty ApplicationParameters
+			tlv(0x05, append(append([]byte{}, emptyName...), 0x24, 0x00)),                                   // ... parameters, no nonce
+			tlv(0x05, append(append(append([]byte{}, emptyName...), nonce...), tlv(0x24, []byte{9, 9})...)), // ... non-empty parameters
+			tlv(0x06, emptyName), // Data with the empty name and nothing else
+			tlv(0x06, append(append([]byte{}, emptyName...), tlv(0x15, []byte{1})...)),                     // Data, empty name, content
+			tlv(0x05, append(tlv(0x07, tlv(0x02, digest32)), nonce...)),                                    // Interest whose only component is a parameters digest
+			tlv(0x05, append(append(tlv(0x07, tlv(0x02, digest32)), nonce...), 0x24, 0x00)),                // ... with parameters (digest mismatch)
+			tlv(0x05, append(tlv(0x07, tlv(0x08, nil)), nonce...)),                                         // Interest with one zero-length component
+			tlv(0x05, append(tlv(0x07, append(tlv(0x08, []byte{'a'}), tlv(0x01, digest32)...)), nonce...)), // implicit digest component
+			tlv(0x64, tlv(0x50, tlv(0x05, append(append([]byte{}, emptyName...), nonce...)))),              // the first case inside an LpPacket
+			tlv(0x64, append(tlv(0x62, []byte{0, 0, 1, 2, 3, 4}), tlv(0x50, tlv(0x06, emptyName))...)),     // empty-name Data with a PIT token
+			tlv(0x64, nil),            // empty LpPacket
+			tlv(0x64, tlv(0x50, nil)), // LpPacket with an empty fragment
 		}
 		f = cases[o.Seed%len(cases)]
 	case "big":
@@ -532,21 +532,21 @@ type appFace struct {
 	run   bool
 }
 
-func (f *appFace) Open() error                 { f.run = true; return nil }
-func (f *appFace) Close() error                { f.run = false; return nil }
-func (f *appFace) Send(pkt enc.Wire) error     { return nil }
-func (f *appFace) IsRunning() bool             { return f.run }
-func (f *appFace) IsLocal() bool               { return true }
+func (f *appFace) Open() error             { f.run = true; return nil }
+func (f *appFace) Close() error            { f.run = false; return nil }
+func (f *appFace) Send(pkt enc.Wire) error { return nil }
+func (f *appFace) IsRunning() bool         { return f.run }
+func (f *appFace) IsLocal() bool           { return true }
 func (f *appFace) SetCallback(onPkt func(r enc.ParseReader) error, onError func(err error) error) {
 	f.onPkt = onPkt
 }
 
 type appTimer struct{ now time.Time }
 
-func (t *appTimer) Now() time.Time                                  { return t.now }
-func (t *appTimer) Sleep(time.Duration)                             {}
-func (t *appTimer) Schedule(time.Duration, func()) func() error     { return func() error { return nil } }
-func (t *appTimer) Nonce() []byte                                   { return []byte{1, 2, 3, 4, 5, 6, 7, 8} }
+func (t *appTimer) Now() time.Time                              { return t.now }
+func (t *appTimer) Sleep(time.Duration)                         {}
+func (t *appTimer) Schedule(time.Duration, func()) func() error { return func() error { return nil } }
+func (t *appTimer) Nonce() []byte                               { return []byte{1, 2, 3, 4, 5, 6, 7, 8} }
 
 func (e RxEngine) Run(t *testing.T, ctx *kit.Ctx, sc *kit.Scenario[RxConfig, RxOp]) *kit.Result {
 	configureFaces()
@@ -594,7 +594,9 @@ func (e RxEngine) Run(t *testing.T, ctx *kit.Ctx, sc *kit.Scenario[RxConfig, RxO
 		table.Configure()
 		fw.Configure()
 		table.CreateFIBTable("nametree")
-		dispatch.FaceDispatch.Range(func(k, _ any) bool { dispatch.FaceDispatch.Delete(k); return true })
+		for id := uint64(0); id < 1200; id++ { // every face id a scenario can have used (only the exported API, so that the table's representation can change)
+			dispatch.RemoveFace(id)
+		}
 		dispatched := 0
 		var disp []dispatch.FWThread
 		for i := 0; i < c.Threads; i++ {
